@@ -47,8 +47,9 @@ def _cases(draw):
     kinds = ("query", "mutation", "subscription") if want_sub else ("query", "mutation")
     case = build(
         d, config=cfg, calls_per_op=0, mixins=d.bool(0.3) or refusal == "bad_mixin",
-        schema_kw={"rich_names": rich, "subscription": want_sub, "defaults": 0.3, "want_custom_operations": custom_ops},
-        ops_kw={"local_var_names": True}, doc_kw={"n_ops": (1, 4), "n_frags": (0, 4), "kinds": kinds},
+        schema_kw={"rich_names": rich, "subscription": want_sub, "defaults": 0.3, "want_custom_operations": custom_ops,
+                   "input_heavy": d.bool(0.5)},
+        ops_kw={"local_var_names": True, "var_p": 0.65}, doc_kw={"n_ops": (1, 4), "n_frags": (0, 4), "kinds": kinds},
         config_desc_fn=wide_config,
     )
     desc = case.pop("_desc_obj", None)
